@@ -656,7 +656,7 @@ func main() {
 	rng := vf.NewRNG(vf.Seed())
 	scratch := vf.Scratch("c28")
 
-	linearN := vf.N(64, 128) // k enumerated completely up to here, bisection + window beyond
+	linearN := vf.N(64, 160) // k enumerated completely up to here, bisection + window beyond
 	poolAllN := vf.N(40, 100)
 	poolSample := map[int]bool{}
 	for _, n := range []int{64, 100, 127, 128, 129, 200, 255, 256, 257, 300, 399, 400} {
